@@ -497,7 +497,7 @@ func runGenesisCase(t *rapid.T, r *rec.Recorder) {
 		}
 	}
 	shape := fmt.Sprintf("%s|%v", module, log.Tags)
-	r.Case(shape, len(log.Tags) > 0, func() interface{} { return log })
+	r.Case(shape, boundaryCount(log.Tags) > 0, func() interface{} { return log })
 }
 
 func TestC15_Genesis(t *testing.T) {
